@@ -92,11 +92,16 @@ Definition arr_copy {A} (dst : list A) (d : Z) (src : list A) (s : Z) (n : Z) : 
   then Ok (firstn (Z.to_nat d) dst ++ firstn (Z.to_nat n) (skipn (Z.to_nat s) src) ++ skipn (Z.to_nat (d + n)) dst)
   else Trap TArrayOOB.
 
-(* (data $d0 "0\00-2147483648") and array.new_data $_Str $d0 off size *)
-Definition d0 : str := [48; 0; 45; 50; 49; 52; 55; 52; 56; 51; 54; 52; 56]%N.
+(* (data $d0 "0\00-2147483648Vec index out of boundspop from empty Vec") and array.new_data $_Str $d0 off size *)
+Definition d0 : str := [48; 0; 45; 50; 49; 52; 55; 52; 56; 51; 54; 52; 56;
+  86;101;99;32;105;110;100;101;120;32;111;117;116;32;111;102;32;98;111;117;110;100;115;
+  112;111;112;32;102;114;111;109;32;101;109;112;116;121;32;86;101;99]%N.
 Definition new_data (off size : Z) : res str :=
   if (0 <=? off) && (0 <=? size) && (off + size <=? alen d0)
   then Ok (firstn (Z.to_nat size) (skipn (Z.to_nat off) d0)) else Trap TArrayOOB.
+(* (drop (call $__Process$panic this ($__$getBuiltinString off size))) (unreachable): the import throws Error(text) in
+   loader.js, so the `unreachable` behind it is never executed *)
+Definition wasm_panic_builtin {A} (off size : Z) : res A := m <- new_data off size ;; Throw m.
 
 (* ------------------------------------------------------------------------------------------------------------------ *)
 (* 2. Str.fromInt                                                                                                       *)
@@ -445,7 +450,7 @@ Section Vec.
   (* $__Vec$pop, 318-333 *)
   Definition wasm_vec_pop (this : wvec) : res (A * wvec) :=
     let len := wlen this in
-    if nz (i32_eqz len) then Trap TUnreachable
+    if nz (i32_eqz len) then wasm_panic_builtin 36 18
     else
       let len := i32_sub len 1 in
       v <- arr_get None (wdata this) len ;;
@@ -455,11 +460,11 @@ Section Vec.
       Ok (x, this).
   (* $__Vec$get, 335-340 *)
   Definition wasm_vec_get (this : wvec) (i : Z) : res A :=
-    if nz (i32_ge_u i (wlen this)) then Trap TUnreachable
+    if nz (i32_ge_u i (wlen this)) then wasm_panic_builtin 13 23
     else v <- arr_get None (wdata this) i ;; as_non_null v.
   (* $__Vec$set, 342-350 *)
   Definition wasm_vec_set (this : wvec) (i : Z) (v : A) : res (Z * wvec) :=
-    if nz (i32_ge_u i (wlen this)) then Trap TUnreachable
+    if nz (i32_ge_u i (wlen this)) then wasm_panic_builtin 13 23
     else d <- arr_set (wdata this) i (Some v) ;; Ok (0, mkW d (wlen this)).
   (* $__Vec$eq, 352-374 *)
   Fixpoint ve_loop (fuel : nat) (ad bd : list (option A)) (len i : Z) : res Z :=
